@@ -6,9 +6,64 @@ VERIF = os.path.dirname(os.path.dirname(os.path.abspath(__file__)))
 REPO = os.environ.get("VERIF_REPO", "/repo")
 BUILD = os.path.join(VERIF, "build")
 
-# property -> verus units (contracts/<unit>.vrs) and kani harness groups (kx.GROUPS)
-PROPERTIES = {
-    "C07": {"units": ["ranges"], "kani": []},
-}
+A_COMMON = [
+    "A1 Verus 0.2026.09.13 / Z3, rustc and the vstd specifications of Vec, Option, HashMap, Range, str::to_string are correct",
+    "A3 usize is 64 bits (global size_of usize == 8)",
+    "A4 extraction rules T1 (visibility removed), T2 (`|_| {}` gets a typed binder and an ensures clause), "
+    "T3 (statement `E.map(|x| S);` -> `if let Some(x) = E { S; }`), T4 (derives other than Debug/PartialEq/Eq/Copy/Hash dropped, "
+    "derived Clone replaced by a trusted impl returning an equal value), T7 (contracts/ghost blocks spliced, return value named) preserve meaning",
+    "A5 machine integers are checked, not idealised; allocation failure / Vec capacity overflow is ignored",
+]
 
-PARTIAL_NOTES = {}
+PROPERTIES = {
+    "C20": {
+        "units": ["arena_forest"], "kani": [], "kani_cex": ["graph_node_twins"],
+        "explanation": "Forest invariant of the arena (ids = slots, links point forward to live nodes that point back, "
+                       "child != next, every live non-root is the child xor next of its prev) is established by build_key and "
+                       "preserved by every arena/builder primitive under contract; lemmas derive disjoint subtrees, a unique live "
+                       "Document root per block, termination of prev-navigation, and that tombstoning a note leaves the rest a forest. "
+                       "All arena sizes, all ids: no bound.",
+        "assumptions": A_COMMON + [
+            "A6 Key's derived Hash/Eq obey vstd's HashMap key model (axiom_key_model)",
+            "A7 callers outside the verified set (SectionsBuilder, insert_from_iter/append_from_visitor, the tree->arena path) "
+            "call the primitives only with a free slot (can_link); known to be violated by `- - a\\n\\n    b\\n\\n  c` (DESIGN 2.3)",
+            "not covered: add_new_node_and / insert_from_iter / append_from_visitor (closure recursion over trait-generic NodeIter), "
+            "GraphNodePointer navigation in model/node.rs",
+        ],
+    },
+    "C04": {
+        "units": ["arena_forest"], "kani": [], "kani_cex": [],
+        "explanation": "PARTIAL (arena half of incremental update): new ids are always the arena length (never reused); "
+                       "delete_branch tombstones exactly the old subtree and blanks exactly its lines; update_key leaves every slot "
+                       "outside the old version of the edited note untouched, and the state handed to the parser is again a forest "
+                       "in which the old version is unreachable. Not covered: RefIndex, title cache, nodes_map, search paths.",
+        "assumptions": A_COMMON + [
+            "A6 assumed contract of Graph::from_markdown (external): it only appends to the arena",
+            "A6 Key's derived Hash/Eq obey vstd's HashMap key model",
+            "not covered: index merge/tombstone filtering (HashMap::entry + &mut-capturing closures), keys_to_ref_text, nodes_map, Database",
+        ],
+    },
+    "C03": {
+        "units": ["arena_forest", "ranges"], "kani": [], "kani_cex": [],
+        "explanation": "PARTIAL: every panic!/unwrap/expect/index/cast/arithmetic site in the functions under contract is unreachable "
+                       "under the stated preconditions and every recursion there has a decreases measure. Not covered: the event "
+                       "mapping in MarkdownEventsReader::read, section_block's panic arm (reachable), handlers, recursion depth.",
+        "assumptions": A_COMMON + [
+            "preconditions that unverified callers must supply are assumptions (A7), e.g. GraphNode::id on Empty, node_mut on a tombstone",
+        ],
+    },
+    "C01": {
+        "units": ["arena_forest", "ranges"], "kani": [], "kani_cex": [],
+        "explanation": "PARTIAL (conservation layers only): (b) the section splitter's ranges partition the block range in order; "
+                       "(c) each builder primitive appends exactly one node and changes exactly one link of the cursor, which was empty. "
+                       "Parser, event mapping and rendering are not covered.",
+        "assumptions": A_COMMON + ["A7 slot-free precondition of the primitives is a caller obligation (known to be violated by one input, DESIGN 2.3)"],
+    },
+    "C07": {
+        "units": ["ranges"], "kani": [], "kani_cex": ["ranges_twin"],
+        "explanation": "PARTIAL (section splitter): for all position vectors of any length, the ranges handed to process_section "
+                       "partition [first split position, end) in order, each starting at a split position. Which positions are chosen "
+                       "(process_blocks), heading-level arithmetic in the Projector and list padding are not covered.",
+        "assumptions": A_COMMON + ["A7 process_blocks passes strictly increasing positions <= end (unverified caller: itertools)"],
+    },
+}
